@@ -115,6 +115,7 @@ def run(tier, seed):
         raise C.InfraError("conform returned %d of %d cases" % (len(byid), len(toks)))
 
     events = []
+    rnd0 = random.Random(seed + 5)
     direct = 0
     for i, ts in enumerate(toks):
         ob = observe(byid[i])
@@ -125,9 +126,32 @@ def run(tier, seed):
             continue
         events.append({"id": i, "ts": ts, "obs": {k: v for k, v in ob.items() if k in ("k", "v")}})
 
+    # the expressions without parentheses also as the address of a tms9900 symbolic operand (mov @<expr>, r1: the CPU's
+    # operand parser hands the text behind @ to the evaluator)
+    flat = [i for i, ts in enumerate(toks) if not any(t["t"] in ("lp", "rp", "bad") for t in ts) and not any("ds" in t for t in ts)]
+    pick = flat if tier == "thorough" else rnd0.sample(flat, min(len(flat), 4000))
+    ccases = [("x%d" % i, "imgmax=64", ".tms9900\n.org 0x100\n  mov @%s, r1\n" % texts[i]) for i in pick]
+    cobs = {o["case"]: o for o in C.conform_parallel(vdir, "asm", ccases, rd, "c04ctx")}
+    nctx = 0
+    for i in pick:
+        o = cobs["x%d" % i]
+        if o.get("died"):
+            chk.report("expr:tms9900:@" + texts[i], "died on mov @%s, r1: %s" % (texts[i], o), dict(source=ccases[0][2], observed=o))
+            continue
+        if o["r1"] != 0 or o["r2"] != 0:
+            ob = {"k": "rej"}
+        else:
+            img = o["img"]
+            if len(img) != 1 or len(img[0][1]) != 8:
+                continue
+            b = bytes.fromhex(img[0][1])
+            ob = {"k": "val", "v": [b[3], b[2], 0, 0, 0, 0, 0, 0]}
+        nctx += 1
+        events.append({"id": 20000000 + i, "ts": toks[i], "obs": ob, "ctx": "tms9900 mov @, r1"})
+
     # canaries: a real accepted value with one byte flipped must be rejected by the acceptor
     rnd = random.Random(seed)
-    vals = [e for e in events if e["obs"]["k"] == "val"]
+    vals = [e for e in events if e["obs"]["k"] == "val" and "ctx" not in e]
     canaries = {}
     for e in rnd.sample(vals, min(24, len(vals))):
         cid = 10000000 + e["id"]
@@ -159,6 +183,12 @@ def run(tier, seed):
     for cid, v in sorted(bad.items()):
         if cid in canaries:
             continue
+        if cid >= 20000000:
+            i = cid - 20000000
+            chk.report("expr:tms9900 operand:" + " ".join(t.get("o", "#") for t in toks[i] if t["t"] in ("op", "num"))[:60],
+                       "mov @%s, r1 on tms9900: the operand word is not the low 16 bits of the expression's value (reference %s)" % (texts[i], v.get("ref")),
+                       dict(source=".tms9900\n.org 0x100\n  mov @%s, r1\n" % texts[i], reference=v.get("ref")))
+            continue
         text = texts[cid]
         ob = observe(byid[cid])
         if v["vd"] == "stale":
@@ -185,7 +215,7 @@ def run(tier, seed):
 
     distinct = len(set(t for i, t in texts.items() if nontrivial(toks[i])))
     chk.cov.update(dict(
-        evaluations=len(toks),
+        evaluations=len(toks) + nctx, operand_context_cases=nctx,
         distinct_nontrivial=distinct,
         rule="TLC enumerates token strings (flat operator sequences, parenthesised, unary-decorated, "
              "two-pair shapes, malformed, literal spellings); non-trivial = at least two operators, "
